@@ -108,6 +108,11 @@ def cases(tier, seed):
         firsts = [[("create", c), op2] for c in CREATE for op2 in [("create", d) for d in CREATE] + [("drop", 0), ("collect",), ("query", "T"), ("query", "Sub"), ("clear",)]] + [[("query", "T")], [("clear",)], [("collect",)], [("declare", "T")]]
     for f in firsts:
         nm = "history|first=%s" % "+".join(":".join(map(str, o)) for o in f)
+        if tier != "quick" and len(f) == 1:
+            # one fixed operation + 4 free ones does not finish within the budget (measured: 711 s, incomplete): these four keep the
+            # quick tier's length in the thorough tier
+            cs.append(Case(nm + "|L=4", history_case(4, f), key=nm, reset=W.world_reset, validate=0, timeout=3000, max_paths=400000))
+            continue
         cs.append(Case(nm + "|L=%d" % L, history_case(L, f), key=nm, reset=W.world_reset, validate=0, timeout=900 if tier == "quick" else 3000, max_paths=400000))
     return cs
 
@@ -121,7 +126,7 @@ def describe(tier):
         "After every query: the result multiset equals the harness's own weak-reference census of live instances of the type and its subclasses. "
         "non-trivial = some instance alive at the end" % L,
         bounds=dict(history_length=L, classes="T, Sub(T), SubSub, Other", ids="every reuse pattern of dead ids"),
-        outside=["histories longer than %d" % L, "instances created by from_dao / unpickling", "threads"],
+        outside=["histories longer than %d" % L + ("" if tier == "quick" else " (4 when the history starts with a query, a declaration, clear or collect)"), "instances created by from_dao / unpickling", "threads"],
         assumptions=["stub: id(obj) returns an arbitrary value distinct from the ids of objects alive at the same time (CPython's contract); counterexamples are replayed with the real id()",
                      "after SymbolGraph().clear() earlier instances are forgotten by design (the census restarts)",
                      "solver role: the history is a vector of finite symbolic choices; the exploration is exhaustive within the bound"],
